@@ -188,6 +188,10 @@ def fam_timing(seed, n_random, big):
             if e is None and not big:
                 # "never": 10^7 .. 10^8 back-off iterations, thorough tier only
                 continue
+            if not big and e not in (0, 2 * S) and d != huge[0]:
+                # (an exit half-way through or at the end of weeks: tens of millions of iterations each; at the quick
+                # tier for the shortest of the huge durations only)
+                continue
             sc = {"id": "t%d" % i, "exit": {"k": "exited", "v": 9, "at": e},
                   "ops": [["wait_timeout", d], ["poll"], ["wait_timeout", d]], "drop": True, "overshoot": 0}
             if e is None:
